@@ -43,12 +43,15 @@ PROP = {
             "image (os.RemoveAll order is not lexical) are re-opened; (5) life after the restart (monitor only): the real writer resumes at "
             "LatestOffset on the re-opened Storer, appends, the collector runs with a small limit, a write fails (descriptor closed), the "
             "process dies again and is re-opened, the replication id changes (directory renamed by SetRunId), VerifyRunId finds it "
-            "among several ids, DelRunId deletes it and fresh processes must find nothing; at RUNTIME after a short write the reported "
-            "range must equal the bytes in the files. distinct_nontrivial = distinct directory images re-opened",
+            "among several ids, DelRunId deletes it; demanded there is SAFETY only (every byte served is the source's, the reported end never "
+            "exceeds what was written); retention, writer liveness and 'a deleted cache is gone' (C06/C16) are counted as notes. At RUNTIME after a "
+            "short write the reported range must equal the bytes in the files. Scripts reach the child through a file (no size limit). distinct_nontrivial = distinct directory images re-opened",
     "trusted": [
-        "strace's rendering of the syscalls and the harness' parser of it (harness/overlay/pkg/store/vf_c08_test.go; the filter is "
-        "openat/write/lseek/close/rename*/unlink*: a change of the code to pwrite/ftruncate would not be parsed — a sanity check compares "
-        "the bytes the script feeds with the bytes the parsed trace shows and fails the run on a mismatch)",
+        "strace's rendering of the syscalls and the harness' parser of it (harness/overlay/pkg/store/vf_c08_test.go; any of "
+        "write/writev/pwrite64/pwritev/ftruncate/O_APPEND/O_TRUNC is turned into 'bytes at an offset of a file'; sanity check of trace AND parser: "
+        "the parsed operations applied to an empty directory must reproduce, byte for byte, the directory the child left behind — otherwise "
+        "(and when strace or the child cannot run) the case is retried and then reported as a broken tie (test failure -> BROKEN [tie], "
+        "no-failing-input-found), never as a violation with a failing input)",
         "process-death semantics of the file system: a crash leaves a prefix of the issued syscalls, the last write possibly torn "
         "(power-loss reordering of unsynced writes is outside the property)",
         "file-name classification (strconv.ParseInt / ParseRdbFile on names the writers produce) is done by the driver, not the model "
@@ -75,6 +78,10 @@ PROP = {
         "its effect is on the runtime index, not on what a re-opened cache serves)",
         "the files initDataSet unlinks at re-opening (Reopened.removed in the model) are not compared with the real unlinks (property-neutral: "
         "a surviving cut file is cut again at the next re-opening); no bridge lemma to C06's CacheOK/CacheWF",
+        "a committed snapshot NAME with fewer bytes than announced (copy, file-system repair, power loss after an unsynced rename) is outside the quantifier "
+        "(process death + alterations of closed segments): initDataSet trusts the name and does not compare info.Size(); such an image is not generated",
+        "the literal syscall list is compared with the model's scriptOps: a rewrite that coalesces or splits writes gives a DIFF (tie failure), not a violation; "
+        "the crash images themselves are always built from the syscalls that really occurred",
         "crc_mismatch_refused for arbitrary alterations is 'refused unless length equal and CRC64 collides' (altered_data_accepted_iff); "
         "the burst-error detection property of CRC64 itself is not re-proved; the version/reserved header bytes are checked by neither code nor model",
         "read() ignores tryReadNextFile's error: a corrupt NEXT segment ends the reader with os.ErrInvalid, not ErrCorrupted (the caller only drops "
